@@ -11,11 +11,11 @@ from . import rules_select as S
 from . import rules_switch as W
 
 RULES = {
-    "R-KC": A.rule_KC, "R-VA": A.rule_VA, "R-VO": A.rule_VO, "R-OF": A.rule_OF, "R-XA": A.rule_XA, "R-OA": A.rule_OA, "R-WI": A.rule_WI,
+    "R-KC": A.rule_KC, "R-KU": A.rule_KU, "R-VA": A.rule_VA, "R-VO": A.rule_VO, "R-OF": A.rule_OF, "R-XA": A.rule_XA, "R-OA": A.rule_OA, "R-WI": A.rule_WI,
     "R-EV": A.rule_EV, "R-EG": A.rule_EG, "R-SL": A.rule_SL,
     "R-FP": C.rule_FP, "R-CP": C.rule_CP, "R-MC": C.rule_MC, "R-CE": C.rule_CE,
     "R-OS": C.rule_OS, "R-RK": C.rule_RK,
-    "R-DC": K.rule_DC, "R-CC": K.rule_CC, "R-CL": K.rule_CL, "R-OC": K.rule_OC, "R-UW": K.rule_UW, "R-LB": K.rule_LB,
+    "R-DC": K.rule_DC, "R-CC": K.rule_CC, "R-CL": K.rule_CL, "R-OC": K.rule_OC, "R-UW": K.rule_UW, "R-CF": K.rule_CF, "R-LB": K.rule_LB,
     "R-MX": K.rule_MX, "R-TK": K.rule_TK,
     "R-MS": O.rule_MS, "R-FV": O.rule_FV, "R-AB": O.rule_AB, "R-MP": O.rule_MP,
     "R-KN": O.rule_KN, "R-PU": O.rule_PU, "R-VM": O.rule_VM, "R-DK": O.rule_DK, "R-PO": O.rule_PO, "R-NK": O.rule_NK,
@@ -25,7 +25,7 @@ RULES = {
     "R-SO": S.rule_SO, "R-OP": S.rule_OP, "R-EO": S.rule_EO, "R-RG": S.rule_RG, "R-ON": S.rule_ON, "R-KW": S.rule_KW, "R-LK": S.rule_LK, "R-KB": S.rule_KB,
     "R-ID": S.rule_ID, "R-EH": S.rule_EH, "R-CH": S.rule_CH, "R-CD": S.rule_CD,
     "R-VP": W.rule_VP, "R-SH": W.rule_SH, "R-DH": W.rule_DH, "R-L1": W.rule_L1,
-    "R-WR": W.rule_WR, "R-RQ": W.rule_RQ, "R-HD": W.rule_HD, "R-MF": W.rule_MF, "R-IS": W.rule_IS, "R-PK": W.rule_PK, "R-AI": W.rule_AI, "R-OH": W.rule_OH, "R-HK": W.rule_HK,
+    "R-WR": W.rule_WR, "R-RQ": W.rule_RQ, "R-HD": W.rule_HD, "R-MF": W.rule_MF, "R-IS": W.rule_IS, "R-PK": W.rule_PK, "R-AI": W.rule_AI, "R-OH": W.rule_OH, "R-JS": W.rule_JS, "R-TV": W.rule_TV, "R-HK": W.rule_HK,
     "R-PL": W.rule_PL, "R-PF": W.rule_PF, "R-GA": W.rule_GA, "R-GS": W.rule_GS, "R-SK": W.rule_SK,
 }
 
@@ -44,7 +44,7 @@ def _p(rules, explanation, undecided, filters=None, floors=None, extra_assumptio
 
 
 PROPS = {
-    "C01": _p(["R-KC", "R-FP", "R-CP", "R-MC", "R-DC", "R-OA", "R-RK", "R-OS", "R-PO", "R-MX", "R-OP", "R-GS", "R-WI", "R-IS", "R-SO", "R-AI", "R-VM", "R-SH", "R-OC", "R-OF", "R-KB"],
+    "C01": _p(["R-KC", "R-FP", "R-CP", "R-MC", "R-DC", "R-OA", "R-RK", "R-OS", "R-PO", "R-MX", "R-OP", "R-GS", "R-WI", "R-IS", "R-SO", "R-AI", "R-VM", "R-SH", "R-OC", "R-OF", "R-KB", "R-KU"],
               "Decides the key-set mechanism behind cache transparency, not values: every child that any evaluate() path of any of the "
               "node classes consults is keyed on the same path of keys() (through constructed wrapper terms); the fingerprint reads "
               "nothing but sorted keyed pairs; Cached uses one (evaluatable, options, cache) triple for exists/get/set/keys and stores "
@@ -53,50 +53,55 @@ PROPS = {
               "whose templates resolve() follows are inspected by Option.keys; no evaluate returns a one-shot iterator; a child evaluated once "
               "per element of a collection (every Map combination) is keyed once per element; no operation keeps an options-dependent "
               "result on the shared expression object."
-              " Values are never changed in place by code that did not create them (a cached list is the object the cache holds); side-request handlers evaluate nothing but their switch; every dataset has a cache of its own unless the user handed one in; every operation hands its options on unchanged (only WithOptions mixes its pre-sets in); dotted keys are compared at the dot.",
+              " Values are never changed in place by code that did not create them (a cached list is the object the cache holds); side-request handlers evaluate nothing but their switch; every dataset has a cache of its own unless the user handed one in; every operation hands its options on unchanged (only WithOptions mixes its pre-sets in); dotted keys are compared at the dot."
+              " The key sets of the parts of a composite are combined by union and nothing else (no `^`, `&`, `-` of part results, no `a.keys(o) or b.keys(o)`).",
               "whether stored values equal uncached evaluation for concrete graphs; prefix relations between run-time key strings "
               "(a whole-section key partly supplied by a pre-set dictionary, finding F13); history effects",
               floors={"R-KC": 30, "R-OA": 80}, filters={"R-SH": ["evaluates nothing but its switch"], "R-OP": [":iterates"], "R-WI": [":keys:"]}),
-    "C02": _p(["R-FP", "R-PO", "R-OA", "R-DC", "R-EO", "R-CP", "R-MC", "R-CW", "R-SK", "R-IS", "R-AI", "R-OC"],
+    "C02": _p(["R-FP", "R-PO", "R-OA", "R-DC", "R-EO", "R-CP", "R-MC", "R-CW", "R-SK", "R-IS", "R-AI", "R-OC", "R-TK", "R-RE"],
               "Decides the structural conditions for effective memoization: the fingerprint depends on keys(options) only (extra or "
               "re-ordered top-level keys cannot split entries); WithOptions.keys removes keys fixed by the pre-set dictionary; "
               "Computation and Logged sit inside cached() so effects and logging happen only on a miss; the effect runs after the "
               "body with its value; the set handler stores and reads back; a miss of MemoryCache.get is decided by the key, never by the "
               "stored value (a stored None is served); no operation keeps an options-dependent result on a shared object."
-              " The implementation dataset of an overload carries nothing of its parent (effects would run twice); no part of an evaluation runs on a thread of the library's making.",
+              " The implementation dataset of an overload carries nothing of its parent (effects would run twice); no part of an evaluation runs on a thread of the library's making."
+              " Template.keys asks its parameters for keys(), not explain() (effect-only keys would split entries); leaving a handler context restores the runtime its entry saved (a cache.disabled() runtime that stays installed after a re-entrant use makes every later evaluation miss).",
               "the number of body executions for concrete DAGs, sharing inside one evaluation, behaviour of over-wide key sets",
-              filters={"R-AI": ["starts no threads"], "R-PO": ["WithOptions"], "R-EO": ["Computation", "CallbackEffect", "ChainedEffect"], "R-OA": ["WithOptions", "Cached", "Dataset"],
+              filters={"R-TK": ["Template.keys"], "R-RE": ["Runtime.__exit__", "Runtime.__enter__"], "R-AI": ["starts no threads"], "R-PO": ["WithOptions"], "R-EO": ["Computation", "CallbackEffect", "ChainedEffect"], "R-OA": ["WithOptions", "Cached", "Dataset"],
                        "R-MC": ["MemoryCache"], "R-CW": ["Dataset.overload", "carries nothing"]}),
-    "C03": _p(["R-PO", "R-FP", "R-KC", "R-DK", "R-RK", "R-MF", "R-WI", "R-OP", "R-SO", "R-OA", "R-AI", "R-HK", "R-HD", "R-KB"],
+    "C03": _p(["R-PO", "R-FP", "R-KC", "R-DK", "R-RK", "R-MF", "R-WI", "R-OP", "R-SO", "R-OA", "R-AI", "R-HK", "R-HD", "R-KB", "R-KU", "R-RE"],
               "Decides: every component of every keys() result is a child's keys, an empty set, a literal key guarded by "
               "dotted_key_exists, or a filtered subset (WithOptions filter checked as a propositional formula on all 8 assignments); "
               "the fingerprint is a deterministic function of the sorted keyed pairs (no hash/id/set-order/environment dependence); "
               "nothing consulted is unkeyed; dotted keys are only looked up through dotted accessors; keys() follows the same member "
               "selection as evaluate() (coalesce validates before keying) and consults per-element children per element."
-              " The library reads no option by a literal name except the documented side switches; the default type-validation handler accepts every value; key prefixes are tested at the dot.",
+              " The library reads no option by a literal name except the documented side switches; the default type-validation handler accepts every value; key prefixes are tested at the dot."
+              " Part key sets are combined by union only; leaving a handler context restores the runtime saved by the matching entry (keys/evaluate/fingerprint are served by the current runtime: a leaked context changes them for the rest of the thread).",
               "restrict-and-re-evaluate equality on concrete dictionaries; F13",
-              filters={"R-HD": ["type-validation"], "R-WI": [":keys:"], "R-OP": [":iterates"], "R-OA": [":keys:"]}),
-    "C04": _p(["R-MS", "R-FV", "R-AB", "R-MP", "R-KN", "R-PU", "R-CC", "R-KC", "R-NK", "R-IS", "R-TK", "R-OF", "R-HD"],
+              filters={"R-RE": ["Runtime.__exit__", "Runtime.__enter__"], "R-HD": ["type-validation"], "R-WI": [":keys:"], "R-OP": [":iterates"], "R-OA": [":keys:"]}),
+    "C04": _p(["R-MS", "R-FV", "R-AB", "R-MP", "R-KN", "R-PU", "R-CC", "R-KC", "R-NK", "R-IS", "R-TK", "R-OF", "R-HD", "R-MF"],
               "Decides: the MISSING sentinel and looked-up values never flow into a truthiness test (presence is decided by "
               "KeyError/dotted_key_exists only); the default is consulted only on the key-absent branch behind `is not MISSING`; "
               "every returning path of Option.evaluate passes the returned value through the type request and the domain check, and "
               "a rejecting domain always raises; KeyNotFoundError names key and source; Option.set builds a fresh dictionary and "
               "mixes it over the input; re-keying an Option into a namespace carries every field and exactly one prefix; Template.evaluate "
               "always goes through resolve(); no evaluated domain or other options-dependent result is memoised on the Option."
-              " Options are handed on unchanged by every class but WithOptions (no second resolve of the dictionary); a shallow copy of an options dictionary is never written into below its first level; the default type-validation handler accepts every value.",
+              " Options are handed on unchanged by every class but WithOptions (no second resolve of the dictionary); a shallow copy of an options dictionary is never written into below its first level; the default type-validation handler accepts every value."
+              " An Option declared as a member of a dataset class is resolved by the instance initialiser for every non-dunder name (a skipped member stays an Option object instead of the value under its key).",
               "the values returned for particular dictionaries; list-index and prefix-key semantics inside confectioner",
-              filters={"R-OF": ["labrea.computation", "labrea.option", "labrea.template", "labrea.dataset", "labrea.logging", "labrea.cache"], "R-HD": ["type-validation"], "R-CC": ["Option(", "Namespace(", "_Auto("], "R-PU": ["labrea.option", "labrea.template"], "R-KC": ["labrea.option.Option:"],
+              filters={"R-MF": ["_DatasetClassMixin.__init__", "members are the Evaluatable"], "R-OF": ["labrea.computation", "labrea.option", "labrea.template", "labrea.dataset", "labrea.logging", "labrea.cache"], "R-HD": ["type-validation"], "R-CC": ["Option(", "Namespace(", "_Auto("], "R-PU": ["labrea.option", "labrea.template"], "R-KC": ["labrea.option.Option:"],
                        "R-IS": ["labrea.option.", "labrea.template."], "R-TK": ["Template.evaluate"]}),
-    "C05": _p(["R-SO", "R-OP", "R-SL", "R-EO", "R-MX", "R-CD", "R-DC", "R-RG", "R-FP", "R-VM", "R-KW", "R-ON", "R-LK"],
+    "C05": _p(["R-SO", "R-OP", "R-SL", "R-EO", "R-MX", "R-CD", "R-DC", "R-RG", "R-FP", "R-VM", "R-KW", "R-ON", "R-LK", "R-HO", "R-VP"],
               "Decides only the selection/order skeleton: switch indexes the table by the dispatch value, default exactly on dispatch "
               "failure or miss, SwitchError without default; case-when returns the result paired with the first condition that holds; "
               "coalesce returns at the first member that validates and evaluates; collections and the Map product iterate in stored "
               "order from one mapping and pre-set each combination as dotted option keys; Apply/Bind/FunctionApplication apply the function "
               "to the evaluated parts; the combinator API (call, >>, apply, bind) is not overridden by a concrete class; a dataset nests "
               "default options > pre-set options > cache > calculation, so what the cache keys on is what the body is evaluated under."
-              " Only a list of aliases is split into aliases; every reported key value reaches the fingerprint as it is; functions that collect **kwargs keep no keyword of their own; lift() sets apart only *args/**kwargs.",
+              " Only a list of aliases is split into aliases; every reported key value reaches the fingerprint as it is; functions that collect **kwargs keep no keyword of their own; lift() sets apart only *args/**kwargs."
+              " The library's own steps used with >> (F.eq, F.gt … as case-when conditions) compute the documented Python operation; the Logged wrapper returns exactly the wrapped value whichever order it logs in.",
               "value equality with a reference interpreter for arbitrary expression trees (most of the property)",
-              filters={"R-FP": ["every-reported-key-serialised"], "R-RG": ["element-wise"], "R-MX": ["Map._iter", "WithOptions.evaluate"], "R-CD": ["Switch", "Coalesce", "CaseWhen", "user callable"], "R-DC": ["default-options > pre-set options"]}),
+              filters={"R-VP": ["Logged"], "R-FP": ["every-reported-key-serialised"], "R-RG": ["element-wise"], "R-MX": ["Map._iter", "WithOptions.evaluate"], "R-CD": ["Switch", "Coalesce", "CaseWhen", "user callable"], "R-DC": ["default-options > pre-set options"]}),
     "C06": _p(["R-CL", "R-SL", "R-AB", "R-EO", "R-EV", "R-SO", "R-PU", "R-AI"],
               "Decides: no evaluation op is reachable from construction/decoration/registration code (whole-program reachability "
               "over resolved callees); unselected switch/case/coalesce branches never receive an op; the default is touched only when "
@@ -105,15 +110,16 @@ PROPS = {
               " Construction code calls no user-supplied object with empty arguments (a dataset class is a type and an expression); Map's per-combination dictionaries share no nested section; the library starts no threads.",
               "which bodies actually ran for a given dictionary",
               filters={"R-AI": ["starts no threads"], "R-PU": ["Map", "shallow"], "R-SO": ["Coalesce", "CaseWhen"]}),
-    "C07": _p(["R-RG", "R-LB", "R-KC", "R-DC", "R-CC", "R-ID", "R-CW", "R-SO", "R-CD", "R-LS", "R-UW"],
+    "C07": _p(["R-RG", "R-LB", "R-KC", "R-DC", "R-CC", "R-ID", "R-CW", "R-SO", "R-CD", "R-LS", "R-UW", "R-FP", "R-DK", "R-CF"],
               "Decides: an implementation registers nothing before all rejections are decided; the overload switch is rebuilt from "
               "the live table on every use; the dispatch is keyed on every successful-dispatch path; the callback is applied outside "
               "the switch; derivatives share overloads and cache by reference; every interface member receives the interface's "
               "dispatch; the overload table is replaced, never mutated; the cache sits inside both option wrappers, so a value stored under one "
               "(default-supplied) dispatch value is keyed apart from another's."
-              " Wrapping never copies the wrapped object's __dict__ (a dataset wrapping a dataset would take over its overload table); tuple aliases are registered whole.",
+              " Wrapping never copies the wrapped object's __dict__ (a dataset wrapping a dataset would take over its overload table); tuple aliases are registered whole."
+              " The fingerprint looks every reported key up with the dotted accessor (a nested dispatch option 'IMPL.KIND' read with options.get would fingerprint as None for every value: one stored value for all implementations); request records keep each constructor argument in the field of its name (a handler of the type request reads request.options when the dispatch Option is typed).",
               "which implementation a given dictionary selects; cross-member consistency of values",
-              filters={"R-KC": ["Switch", "Overloaded", "_DependsOn", "Dataset"], "R-CC": ["Dataset(", "Overloaded("], "R-SO": ["Switch"],
+              filters={"R-FP": ["every-reported-key-serialised", "options-only-via-keys-and-lookup"], "R-DK": ["fingerprint"], "R-CF": ["Request"], "R-KC": ["Switch", "Overloaded", "_DependsOn", "Dataset"], "R-CC": ["Dataset(", "Overloaded("], "R-SO": ["Switch"],
                        "R-DC": ["callback", "delegates", "default-options > pre-set options"], "R-CD": ["Switch"], "R-LS": ["Overloaded", "_LOCKS"]}),
     "C08": _p(["R-MX", "R-OA", "R-DC", "R-CC", "R-PU", "R-PO", "R-IS", "R-UW", "R-VM", "R-OF"],
               "Decides: WithOptions mixes the pre-set dictionary as the winning ingredient exactly when forced; all four ops see the "
@@ -123,13 +129,14 @@ PROPS = {
               " A WithOptions rebuilt from another carries its force flag; wrapping copies no __dict__; values and options are not changed in place, also not through shallow copies.",
               "merge semantics of confectioner.mix itself; F13",
               filters={"R-CC": ["Dataset(", "WithOptions("], "R-OA": ["WithOptions", "Dataset", "Map"], "R-PO": ["WithOptions"]}),
-    "C09": _p(["R-TK", "R-KC", "R-RK", "R-CH", "R-GS", "R-KW"],
+    "C09": _p(["R-TK", "R-KC", "R-RK", "R-CH", "R-GS", "R-KW", "R-MX", "R-ID"],
               "Decides: Template.keys/explain/validate iterate the same key source as evaluate resolves, skip exactly the :param: "
               "keys, delegate every other key to Option(key).<same op> (transitivity), and visit all params; Option.keys/explain "
               "inspect every container kind whose embedded references resolve() follows; KeyError translations are chained."
-              " Collecting functions keep no keyword of their own (a lifted parameter called `name` is still lifted); no thread-local walk state survives a failed keys().",
+              " Collecting functions keep no keyword of their own (a lifted parameter called `name` is still lifted); no thread-local walk state survives a failed keys()."
+              " A dataset derived with with_options / with_default_options and used as a {:name:} parameter is evaluated under the options given, with the stored pre-set dictionary (not the default one) mixed in; an interface member declared as `name: T = <dataset>` keeps that default implementation (no abstract member is declared over it).",
               "the substituted text",
-              filters={"R-KC": ["Template", "Option"], "R-CH": ["Template", "Option"], "R-GS": ["labrea.template", "labrea.option"]}),
+              filters={"R-MX": ["with_options", "with_default_options"], "R-ID": ["abstract member only"], "R-KC": ["Template", "Option"], "R-CH": ["Template", "Option"], "R-GS": ["labrea.template", "labrea.option"]}),
     "C10": _p(["R-VA", "R-KC", "R-OA", "R-CP", "R-EV", "R-SL", "R-OP", "R-SH", "R-WI", "R-MF", "R-VO", "R-RK", "R-TK", "R-L1", "R-OF"],
               "Decides: for every node class, every evaluate path's children are covered by one validate path; the same children are "
               "keyed; the same options form is passed; Cached.validate skips only on exists; inspection evaluates selectors only; "
@@ -140,16 +147,17 @@ PROPS = {
               " Template inspection skips exactly the :param: keys; inspection methods do not log; options are handed on unchanged.",
               "agreement for a particular dictionary when it hinges on values",
               filters={"R-L1": ["inspection does not log"], "R-TK": ["validate", "keys"], "R-CP": ["validate"], "R-OP": [":iterates"], "R-SH": ["labrea.cache."], "R-WI": [":validate:", ":keys:"], "R-MF": ["same member source", "one member enumeration"]}),
-    "C11": _p(["R-XA", "R-EG", "R-OA", "R-EV", "R-TK", "R-OP", "R-WI", "R-SO", "R-SL", "R-AB", "R-RK", "R-VO", "R-PO", "R-L1"],
+    "C11": _p(["R-XA", "R-EG", "R-OA", "R-EV", "R-TK", "R-OP", "R-WI", "R-SO", "R-SL", "R-AB", "R-RK", "R-VO", "R-PO", "R-L1", "R-SH", "R-KU"],
               "Decides: every child keyed or validated is explained, path by path for equal selections; every evaluate/validate "
               "reached from an explain method lies inside a try that catches EvaluationError and raises "
               "InsufficientInformationError from it or falls back statically; explain follows the same selection as validate/keys "
               "(coalesce, switch), decides presence like keys (not by the value), and covers per-element children; explain consults a child only "
               "where evaluate may; the keys WithOptions hides from explain are exactly those its pre-set dictionary supplies (dotted lookup)."
-              " Inspection methods issue no log request (whose handler would read an option explain never lists).",
+              " Inspection methods issue no log request (whose handler would read an option explain never lists)."
+              " Computation.explain lists the effect's keys exactly when Computation.validate checks them (effects not disabled); part key sets are combined by union only.",
               "the iterative fill-until-valid behaviour on concrete dictionaries",
-              filters={"R-L1": ["inspection does not log"], "R-TK": ["explain"], "R-OP": [":iterates"], "R-WI": [":explain:"], "R-SO": ["Coalesce"], "R-SL": [":explain:"], "R-AB": ["explain"], "R-RK": ["explain", "every recognised kind"], "R-VO": [":explain:"], "R-PO": ["WithOptions"]}),
-    "C12": _p(["R-EH", "R-CH", "R-CD", "R-KN", "R-CP", "R-MC", "R-WR", "R-DC", "R-GS", "R-HI", "R-EX", "R-AB", "R-OH"],
+              filters={"R-SH": ["Computation.explain", "Computation.validate"], "R-L1": ["inspection does not log"], "R-TK": ["explain"], "R-OP": [":iterates"], "R-WI": [":explain:"], "R-SO": ["Coalesce"], "R-SL": [":explain:"], "R-AB": ["explain"], "R-RK": ["explain", "every recognised kind"], "R-VO": [":explain:"], "R-PO": ["WithOptions"]}),
+    "C12": _p(["R-EH", "R-CH", "R-CD", "R-KN", "R-CP", "R-MC", "R-WR", "R-DC", "R-GS", "R-HI", "R-EX", "R-AB", "R-OH", "R-JS"],
               "Decides: the default evaluate handler wraps every exception into EvaluationError(source = this object) chained with "
               "`from`, re-raising its own; all raises inside handlers are chained; only documented fall-through points catch "
               "EvaluationError and nothing else catches Exception; the only path into the memo dictionary is CacheSetRequest built in "
@@ -157,19 +165,21 @@ PROPS = {
               "'not provided'; the context managers that swap handlers restore the previous runtime on every exit; no module-level state and no "
               "mutated default argument carries anything from one evaluation to the next; no __repr__ (error messages embed them) orders "
               "user-supplied aliases."
-              " No StopIteration of user code is taken for exhaustion (next(filter(…), default)); no error message is built by ordering looked-up option values or reading __name__ of arbitrary callables.",
+              " No StopIteration of user code is taken for exhaustion (next(filter(…), default)); no error message is built by ordering looked-up option values or reading __name__ of arbitrary callables."
+              " What an error message joins has been turned into text first (lookup keys and aliases are arbitrary hashables: an unconverted join fails inside the error's constructor); the reported key is element 0 of (*e.args, fallback).",
               "the concrete cause chain for a given graph; outcomes of later evaluations",
               filters={"R-CP": ["store-after-compute"], "R-MC": ["writes", "constructs", "calls Cache.set"], "R-WR": ["__init_subclass__", "_evaluate_request", "directly"],
                        "R-DC": ["cache layer", "cached"], "R-HI": ["disabled"], "R-AB": ["Option.evaluate"]}),
-    "C13": _p(["R-HO", "R-HF", "R-PI", "R-KC", "R-XA", "R-EO", "R-IS", "R-SO", "R-HD", "R-VM", "R-KW", "R-LK"],
+    "C13": _p(["R-HO", "R-HF", "R-PI", "R-KC", "R-XA", "R-EO", "R-IS", "R-SO", "R-HD", "R-VM", "R-KW", "R-LK", "R-RE", "R-VP", "R-OA"],
               "Decides: the operand order of each helper step by symbolic beta-reduction of partial(f, …) against the documented "
               "behaviour; every option-valued helper parameter is handed to the step as an evaluated argument, not captured; "
               "PipelineStep/Pipeline/PartialApplication key and explain their parameters; __iter__ yields rest before tail, "
               "evaluate applies rest innermost, + appends the right operand's steps; Value hands out a copy (the wrapped object only "
               "when copying failed or for deepcopy-atomic types); no composed function is memoised on the pipeline."
-              " Coalesce chooses its member through one selector in all four operations; the default type-validation handler accepts every value (an int for a float-typed parameter); helper steps never change the piped value in place.",
+              " Coalesce chooses its member through one selector in all four operations; the default type-validation handler accepts every value (an int for a float-typed parameter); helper steps never change the piped value in place."
+              " Every step of a pipeline is explained/keyed/validated under the options the pipeline was given (none is asked with no options at all); a step parameter wrapped in Logged yields the wrapped value; a step body that enters and leaves a handler context leaves the runtime as it found it (sequential and composed application then agree).",
               "associativity/identity of + over all bracketings (a structural induction, not attempted); transform values",
-              filters={"R-VM": ["labrea.functions", "labrea.pipeline"], "R-HD": ["type-validation"], "R-SO": ["Coalesce"], "R-KC": ["Pipeline", "PartialApplication", "Apply", "FunctionApplication", "EvaluatableArg", "EvaluatableKwargs"],
+              filters={"R-RE": ["Runtime.__exit__", "Runtime.__enter__"], "R-VP": ["Logged"], "R-OA": ["Pipeline", "PartialApplication", "PipelineStep", "EvaluatableArg", "EvaluatableKwargs"], "R-VM": ["labrea.functions", "labrea.pipeline"], "R-HD": ["type-validation"], "R-SO": ["Coalesce"], "R-KC": ["Pipeline", "PartialApplication", "Apply", "FunctionApplication", "EvaluatableArg", "EvaluatableKwargs"],
                        "R-XA": ["Pipeline", "PartialApplication", "Apply", "FunctionApplication", "EvaluatableArg", "EvaluatableKwargs"],
                        "R-EO": ["Pipeline", "Apply", "PartialApplication", "Value.evaluate"], "R-IS": ["labrea.pipeline.", "labrea.application.", "labrea.types."]}),
     "C14": _p(["R-RE", "R-NR", "R-DF", "R-HI", "R-EX", "R-TI"],
@@ -179,35 +189,38 @@ PROPS = {
               "independent of the exception and returns nothing truthy, every table index is the current thread."
               " The current runtime is read only by Request.run and handle(); no library function enters a runtime of its own; a Runtime subclass keeps no per-entry state in one attribute.",
               "the stack discipline over arbitrary enter/exit histories (needs a model)"),
-    "C15": _p(["R-LS", "R-CW", "R-TI", "R-RE", "R-MC", "R-LB", "R-GS"],
+    "C15": _p(["R-LS", "R-CW", "R-TI", "R-RE", "R-MC", "R-LB", "R-GS", "R-SO", "R-FP", "R-KU"],
               "Decides the lock and ownership discipline only: every access to the thread->runtime table under the module lock and "
               "keyed by the current thread; the overload table written under the object's lock and replaced copy-on-write; restore "
               "state of shared runtime objects is per thread; cache entries addressed by fingerprint in all three operations; no switch "
               "built from the overload table is kept on the object (an unlocked check-build-store would race with register)."
-              " No object's overload table is re-bound from outside; no module-level or thread-local state beyond the three guarded tables.",
+              " No object's overload table is re-bound from outside; no module-level or thread-local state beyond the three guarded tables."
+              " `the value belonging to their own options`: the entries of one cache are told apart by the fingerprint alone — it covers every key the selection reads (coalesce keys the member it evaluates, validated first), serialised by dotted lookup, part key sets combined by union.",
               "behaviour under interleavings — no schedule is explored (most of the property)",
-              filters={"R-MC": ["key-is-fingerprint"]}),
-    "C16": _p(["R-VP", "R-SH", "R-DH", "R-L1", "R-DC", "R-RQ", "R-HI", "R-SK", "R-CP", "R-GS", "R-AI", "R-VO", "R-MX", "R-UW", "R-HK"],
+              filters={"R-SO": ["Coalesce"], "R-MC": ["key-is-fingerprint"]}),
+    "C16": _p(["R-VP", "R-SH", "R-DH", "R-L1", "R-DC", "R-RQ", "R-HI", "R-SK", "R-CP", "R-GS", "R-AI", "R-VO", "R-MX", "R-UW", "R-HK", "R-KU"],
               "Decides: no data flow from a switch, an effect result or a log result into any returned value; the three cache "
               "handlers test both switch spellings first and delegate to disabled twins that touch no backend; the effects switch "
               "selects between two terms containing the same calculation; exactly one log request per Logged.evaluate path, Logged "
               "inside cached; Cached.evaluate returns only the retrieved, stored or computed value; no hidden module-level state in "
               "the cache/logging/computation modules; no module reads the process environment, a clock or a random source (switches come "
               "from options and handlers only); a per-object switch is honoured by all sibling operations alike."
-              " Map delivers every mapped dotted key (switch options included) to the mapped expression; the library reads no option by literal name except the documented switches.",
+              " Map delivers every mapped dotted key (switch options included) to the mapped expression; the library reads no option by literal name except the documented switches."
+              " Part key sets are combined by union only (a key two steps share must not vanish from the fingerprint: cached and uncached values would differ).",
               "observed counts of recomputation and emitted records",
               filters={"R-MX": ["Map"], "R-DC": ["effects", "calculation", "Logged"], "R-HI": ["handle", "disabled"], "R-CP": ["returns-retrieved-stored-or-computed"], "R-GS": ["labrea.cache", "labrea.logging", "labrea.computation"], "R-VO": ["Computation", "Dataset", "Logged", "Cached"]}),
-    "C17": _p(["R-CE", "R-CP", "R-MC", "R-SO", "R-OH", "R-OC"],
+    "C17": _p(["R-CE", "R-CP", "R-MC", "R-SO", "R-OH", "R-OC", "R-FP", "R-DK", "R-RK"],
               "Decides: CacheGetFailure cannot escape Cached.evaluate/validate, Cache.exists or the set/exists handlers through any "
               "resolved call chain; every return of Cached.evaluate is the retrieved, the stored-and-read-back or the freshly "
               "computed value; a failed get falls through to the computation; the set handler falls back to request.value; MemoryCache "
               "decides a miss by the key; coalesce falls through when a member that validated fails to evaluate; a handler that caught a backend "
               "failure passes it on without doing anything that could fail differently; the reprs embedded in CacheGetFailure's message "
               "never order user-supplied aliases."
-              " Every dataset has its own cache unless handed one; reprs (embedded in CacheGetFailure) are total: no ordering of aliases, no unguarded __name__.",
+              " Every dataset has its own cache unless handed one; reprs (embedded in CacheGetFailure) are total: no ordering of aliases, no unguarded __name__."
+              " A backend that follows the contract is addressed by the fingerprint: every reported key is serialised by dotted lookup, and Option.keys follows templated values into the values (not the keys) of a mapping — otherwise a well-behaved backend hands back a value stored for other options.",
               "backends that violate the Cache contract in other ways (other exception types)",
-              filters={"R-MC": ["MemoryCache.get:a miss"], "R-SO": ["Coalesce"]}),
-    "C18": _p(["R-WR", "R-RQ", "R-HD", "R-MP", "R-L1", "R-HI", "R-MF", "R-EO", "R-ON"],
+              filters={"R-DK": ["fingerprint"], "R-RK": ["every recognised kind"], "R-MC": ["MemoryCache.get:a miss"], "R-SO": ["Coalesce"]}),
+    "C18": _p(["R-WR", "R-RQ", "R-HD", "R-MP", "R-L1", "R-HI", "R-MF", "R-EO", "R-ON", "R-EV", "R-CF"],
               "Decides nearly the whole mechanism: the four ABC hooks replace every op by a request-issuing wrapper and the default "
               "handlers call the saved implementation; nothing else calls the saved implementations; every concrete class defines "
               "plain methods; cache/log/type-check sites go through XRequest(...).run(); backends are called only by handlers; every "
@@ -215,24 +228,28 @@ PROPS = {
               "overrides __call__ (which would evaluate without issuing the request); a pipeline evaluates all its steps before it returns the "
               "composed function (no request is issued later, under another runtime); operations are issued on the objects the expression "
               "was built from, not on copies derived on the way."
-              " No library function enters a runtime of its own (shadowing the user's handlers); expressions are never deep-copied.",
+              " No library function enters a runtime of its own (shadowing the user's handlers); expressions are never deep-copied."
+              " validate/keys/explain ask their parts to validate/key/explain (an effect whose validate evaluates its callback issues EvaluateRequests where ValidateRequests are due); request records keep each constructor argument in the field of its name.",
               "third-party subclasses; that a pass-through handler changes no value",
               filters={"R-MP": ["type request"], "R-HI": ["handle", "disabled", "enters a runtime", "reads the current runtime"], "R-MF": ["set to its evaluation"], "R-EO": ["__call__", "combinator API", "before the function is returned"]}),
-    "C19": _p(["R-DK", "R-MF", "R-KC", "R-VA", "R-XA", "R-WI", "R-EO", "R-KB", "R-LK", "R-TI"],
+    "C19": _p(["R-DK", "R-MF", "R-KC", "R-VA", "R-XA", "R-WI", "R-EO", "R-KB", "R-LK", "R-TI", "R-MX", "R-RG"],
               "Decides: relevant options are read with dotted accessors; validate/keys/explain/instantiation enumerate members with "
               "the same source and predicate; __eq__ and __repr__ read the recorded relevant options; members are children for key "
               "coverage / validate / explain agreement; no per-class member memo that derived classes inherit; plain members are "
               "handed out as copies."
-              " Recorded keys are compared at the dot; lift() lifts keyword-only defaults; inherit() always installs the parent's runtime.",
+              " Recorded keys are compared at the dot; lift() lifts keyword-only defaults; inherit() always installs the parent's runtime."
+              " A member derived with with_options / with_default_options carries the stored forced dictionary on (members are evaluations under the instance's options); every member of an implemented interface is registered under every alias (the aliases are a collection that can be walked once per member).",
               "instance attribute values",
-              filters={"R-KC": ["_DatasetClassMeta"], "R-VA": ["_DatasetClassMeta"], "R-XA": ["_DatasetClassMeta"], "R-DK": ["datasetclass"],
+              filters={"R-MX": ["with_options", "with_default_options"], "R-RG": ["walked once per member", "every member registered"], "R-KC": ["_DatasetClassMeta"], "R-VA": ["_DatasetClassMeta"], "R-XA": ["_DatasetClassMeta"], "R-DK": ["datasetclass"],
                        "R-WI": ["_DatasetClassMeta"], "R-EO": ["Value.evaluate"]}),
-    "C20": _p(["R-PL", "R-PF", "R-GA", "R-PK", "R-IS"],
+    "C20": _p(["R-PL", "R-PF", "R-GA", "R-PK", "R-IS", "R-TV", "R-FP"],
               "Decides necessary conditions of picklability: every class holding a lock drops it in __getstate__ and re-creates it in "
               "__setstate__; node classes use default instance pickling (no __slots__); no wrapper object takes a decorated function's "
               "name while retaining the function without customising pickling; __getattr__ rejects private names before touching "
               "instance state; identity tests only against objects that keep their identity through pickling (MISSING is an Enum member); "
               "no operation stores closures or other options-dependent state on the object."
-              " __getattr__ rejects private names before reading any instance attribute — also inside the guard's own test.",
-              "behavioural equality after a round trip, protocols, fresh-process loading"),
+              " __getattr__ rejects private names before reading any instance attribute — also inside the guard's own test."
+              " Type variables carry the name they are bound to (objects built through a subscripted constructor pickle the alias by name); the fingerprint iterates sorted keys (set order differs between processes: entries pickled with a MemoryCache would all miss).",
+              "behavioural equality after a round trip, protocols, fresh-process loading",
+              filters={"R-FP": ["sorted-iteration"]}),
 }
